@@ -25,6 +25,7 @@ PHRASES = [
     ("R1.", "import/attribute resolution against the installed sources"),
     ("R10.", "call-arity and signature-discipline checks"),
     ("R11.", "keyword-family algebra over usage classes"),
+    ("R17.", "agreement of the index order of the weight function with the axis order of the params template"),
     ("R16.", "who-may-read rule: Parameter.default is never consulted (with positive control)"),
     ("R12.", "guard terms interpreted on finite witness sets (continuous and discrete grids, filter parameters) + partial-operation domain check"),
 ]
